@@ -27,6 +27,13 @@ type History struct {
 	// EmptyNotNil (struct builder): unpopulated lists/maps/bytes are set to
 	// empty non-nil containers instead of nil.
 	EmptyNotNil bool
+	// EmptyCap (struct builder, with EmptyNotNil): capacity of the empty
+	// non-nil slices given to unpopulated list fields.
+	EmptyCap int
+	// TruncateLists (reflect builder): lists are over-filled and truncated back,
+	// and some unpopulated lists are filled and truncated to length 0, which
+	// leaves empty non-nil slices with spare capacity.
+	TruncateLists bool
 	// SizeHint (struct builder): make maps with a capacity hint.
 	SizeHint int
 	// Between, if set, is called between insertions with the root message.
@@ -123,6 +130,9 @@ func (h *History) fillReflect(dst protoreflect.Message, av protoreflect.Message)
 					l.Append(cloneValue(fd, sl.Get(j)))
 				}
 			}
+			if h.TruncateLists && h.T.Chance("overfill", 1, 2) {
+				h.overfill(l, fd, sl.Len())
+			}
 		case fd.Kind() == protoreflect.MessageKind:
 			h.fillReflect(dst.Mutable(dfd).Message(), v.Message())
 		default:
@@ -130,9 +140,31 @@ func (h *History) fillReflect(dst protoreflect.Message, av protoreflect.Message)
 		}
 		h.between()
 	}
+	if h.TruncateLists {
+		// unpopulated lists: fill and truncate to zero (empty, non-nil, spare capacity)
+		for _, fd := range sortedFields(av.Descriptor()) {
+			if fd.IsList() && !av.Has(fd) && h.T.Chance("trunc-empty", 1, 4) {
+				h.overfill(dst.Mutable(dstField(dst, fd)).List(), fd, 0)
+			}
+		}
+	}
 	if u := av.GetUnknown(); len(u) > 0 {
 		dst.SetUnknown(append(protoreflect.RawFields{}, u...))
 	}
+}
+
+// overfill appends extra elements and truncates the list back to n.
+func (h *History) overfill(l protoreflect.List, fd protoreflect.FieldDescriptor, n int) {
+	extra := 1 + h.T.Draw("overfill-n", 3)
+	for i := 0; i < extra; i++ {
+		if fd.Kind() == protoreflect.MessageKind {
+			l.Append(l.NewElement())
+		} else {
+			l.Append(cloneValue(fd, fd.Default()))
+		}
+	}
+	l.Truncate(n)
+	h.note("overfilled %s by %d and truncated to %d", fd.Name(), extra, n)
 }
 
 // extraKeys draws up to n keys that are not in the final key set.
@@ -283,7 +315,7 @@ func (h *History) fillStruct(pv reflect.Value, av protoreflect.Message) error {
 					case fd.IsMap():
 						f.Set(reflect.MakeMap(f.Type()))
 					case fd.IsList():
-						f.Set(reflect.MakeSlice(f.Type(), 0, 0))
+						f.Set(reflect.MakeSlice(f.Type(), 0, h.EmptyCap))
 					case fd.Kind() == protoreflect.BytesKind:
 						f.SetBytes([]byte{})
 					}
